@@ -201,7 +201,7 @@ func init() {
 		ID: "C11", Level: "model_checking",
 		Rule: "states = canonical cue lists; transitions = Unfragment by the real code on a fresh real list compared with the connected-components specification, plus the property's invariants evaluated on the real result (ordered, no same-text cues touching, same texts on screen at every grid instant and half-instant); inverse-law transitions start from fragmented states; non-trivial = at least one merge happened / an inverse-law case",
 		Scope: map[core.Tier]string{
-			core.Quick:    "all lists (any order, overlaps, zero-length, duplicates) of <=2 cues on 0..5 with 3 texts (1ms, 1h+1ms), <=3 on 0..4 and <=4 on 0..3 with 2 texts, <=3 on 0..4 with one text in two segmentations (one run / two runs) and another; inverse law: all start-ordered lists of <=3 cues on 0..6 free of touching same-text cues x f in 1..5",
+			core.Quick:    "all lists (any order, overlaps, zero-length, duplicates) of <=2 cues on 0..5 with 3 texts (1ms, 1h+1ms), <=3 on 0..4 and <=4 on 0..3 with 2 texts, <=3 on 0..4 with one text in two segmentations (one run / two runs) and another; inverse law: all start-ordered lists of <=3 cues on 0..6 free of touching same-text cues x f in 1..5; <=3 cues on 0..5 in units of 1 ns and 300 us (gaps shorter than a millisecond)",
 			core.Thorough: "<=3 cues on 0..5 with 3 texts (1ms, 1h+1ms), <=4 on 0..4 (1ms,1ns) and on 0..5, <=5 on 0..3 with 2 texts; inverse law: <=3 cues on 0..9 x f in 1..5",
 		},
 		Assumptions: []string{"Go toolchain and standard library", "single-line texts (the library compares cues by their joined text)", "reference models refops.Unfragment, refops.Fragment"},
